@@ -126,6 +126,11 @@ func buildFromDefinition(def *configDefinition, lc *loaderContext) (cfg *Config,
 		}
 	}
 
+	err = checkPipelineInclusion(def.Pipelines)
+	if err != nil {
+		return nil, err
+	}
+
 	cfg.Import = def.Import
 	cfg.Debug = def.Debug
 	cfg.Output = def.Output
